@@ -122,13 +122,39 @@ def stepRune (ins impl : List String) : Option String := do
     pure (verdict (m == "\t".intercalate impl) none m)
   | _ => none
 
-def step (_ : Unit) (line : String) : Unit × String :=
+/-- Sequence mode: the patterns of the long-lived instance (`none`: no valid
+configuration).  The model of a step is the stateless model — the property is
+per request, whatever was asked before. -/
+abbrev St := Option (List Bytes)
+
+def stepConf (ins impl : List String) : Option (St × String) := do
+  let (pats, rest) ← takeList ins
+  if !rest.isEmpty then none
+  else
+    match confError pats 0 with
+    | some i =>
+      let m := "conferr\t" ++ toString i
+      pure (none, verdict (m == "\t".intercalate impl) none m)
+    | none => pure (some pats, verdict ("ok" == "\t".intercalate impl) none "ok")
+
+def stepSeq (st : St) (op : Op) (ins impl : List String) : Option String :=
+  match st with
+  | none => some (verdict ("noconf" == "\t".intercalate impl) none "noconf")
+  | some pats => stepOp op (toString pats.length :: pats.map hexEncode ++ ins) impl
+
+def step (st : St) (line : String) : St × String :=
   match splitTab line with
   | op :: rest =>
     match splitArrow rest with
-    | none => ((), "bad-op")
+    | none => (st, "bad-op")
     | some (ins, impl) =>
+      if op == "C17.conf" then
+        (match stepConf ins impl with | some (s, o) => (s, o) | none => (st, "bad-op"))
+      else
       let r := match op with
+        | "C17.sadd" => stepSeq st .add ins impl
+        | "C17.sseturl" => stepSeq st .setURL ins impl
+        | "C17.srefresh" => stepSeq st .refresh ins impl
         | "C17.add" => stepOp .add ins impl
         | "C17.seturl" => stepOp .setURL ins impl
         | "C17.refresh" => stepOp .refresh ins impl
@@ -137,9 +163,9 @@ def step (_ : Unit) (line : String) : Unit × String :=
         | "C17.clean" => stepClean ins impl
         | "C17.rune" => stepRune ins impl
         | _ => none
-      ((), r.getD "bad-op")
-  | [] => ((), "bad-op")
+      (st, r.getD "bad-op")
+  | [] => (st, "bad-op")
 
 end C17Drv
 
-def main : IO Unit := run C17Drv.step ()
+def main : IO Unit := run C17Drv.step none
